@@ -4,6 +4,9 @@ package main
 import (
 	"os"
 
+	"github.com/btcsuite/btcwallet/snacl"
+	"github.com/btcsuite/btcwallet/waddrmgr"
+
 	"verif/internal/evid"
 	"verif/internal/mgr"
 )
@@ -25,6 +28,13 @@ func main() {
 		res := mgr.RunHistory(cfg, cs, dir)
 		mgr.Record(r, res, "history", cs, res.Stats["c05-wipe-checks"] > 0 && res.Stats["c05-locked-probes"] > 0)
 	})
+	// complete wallets: the wallet-level passphrase operations (fast key derivation)
+	waddrmgr.SetSecretKeyGen(func(p *[]byte, _ *waddrmgr.ScryptOptions) (*snacl.SecretKey, error) {
+		return snacl.NewSecretKey(p, 16, 8, 1)
+	})
+	r.Parallel("wallet-passphrases", r.N(16, 300), evid.Workers(), func(i int, cs int64) { walletPassphrases(r, dir, cs) })
+	r.Require("wallet-passphrase-probes", 60)
+	r.Require("wallet-passphrase-changes-refused", 10)
 	r.Require("c05-locked-probes", 5000)
 	r.Require("c05-wipe-checks", 100)
 	r.Require("c05-locks-before-the-commit-of-an-operation", 10)
